@@ -112,6 +112,8 @@ type rq struct {
 	Key   *felt.Felt
 	Class *felt.Felt
 	Flags []string
+	// Only: the optional contract_addresses filter of v0.10 getStateUpdate (nil: absent)
+	Only []felt.Felt
 }
 
 func (q *rq) wire() request {
@@ -136,6 +138,13 @@ func (q *rq) wire() request {
 	}
 	if q.Flags != nil {
 		p["response_flags"] = q.Flags
+	}
+	if q.Only != nil {
+		l := make([]string, len(q.Only))
+		for i := range q.Only {
+			l[i] = q.Only[i].String()
+		}
+		p["contract_addresses"] = l
 	}
 	if len(p) == 0 {
 		return request{Method: "starknet_" + q.M}
@@ -305,6 +314,10 @@ func check(s *snap, ver string, q *rq, rp *reply) *mm {
 		m.expectCode(rp, codeInvalidParams, "response_flags is a v0.10 parameter")
 		return m
 	}
+	if q.Only != nil && ver != "v10" {
+		m.expectCode(rp, codeInvalidParams, "contract_addresses is a v0.10 parameter")
+		return m
+	}
 	switch q.M {
 	case "blockNumber":
 		if len(s.blocks) == 0 {
@@ -351,7 +364,7 @@ func check(s *snap, ver string, q *rq, rp *reply) *mm {
 		if !ok {
 			m.expectCode(rp, codeBlockNotFound, "block id denotes no block of the chain")
 		} else if m.expectResult(rp) {
-			checkStateUpdate(m, s, ver, n, obj(rp.Result))
+			checkStateUpdate(m, s, ver, n, obj(rp.Result), q.Only)
 		}
 	case "getTransactionByHash":
 		at, ok := s.txAt[*q.Tx]
@@ -733,9 +746,22 @@ func (m *mm) set(path string, got any, key func(e any) string, want []string) {
 	}
 }
 
-func checkStateUpdate(m *mm, s *snap, ver string, n int, o map[string]any) {
+func checkStateUpdate(m *mm, s *snap, ver string, n int, o map[string]any, only []felt.Felt) {
 	blk := s.blocks[n]
 	su := blk.SU
+	// v0.10 contract_addresses: address-keyed sections are restricted to the listed contracts
+	// (an empty list restricts nothing); class-keyed sections are not affected
+	keep := func(a felt.Felt) bool {
+		if len(only) == 0 {
+			return true
+		}
+		for i := range only {
+			if only[i] == a {
+				return true
+			}
+		}
+		return false
+	}
 	m.felt("block_hash", o["block_hash"], blk.Block.Hash)
 	m.felt("new_root", o["new_root"], blk.Block.GlobalStateRoot)
 	old := &felt.Zero
@@ -757,6 +783,9 @@ func checkStateUpdate(m *mm, s *snap, ver string, n int, o map[string]any) {
 	}
 	var want []string
 	for a, slots := range sd.StorageDiffs {
+		if !keep(a) {
+			continue
+		}
 		for k, v := range slots {
 			want = append(want, a.String()+"/"+k.String()+"="+v.String())
 		}
@@ -788,17 +817,23 @@ func checkStateUpdate(m *mm, s *snap, ver string, n int, o map[string]any) {
 	}
 	want = nil
 	for a, v := range sd.Nonces {
-		want = append(want, a.String()+"="+v.String())
+		if keep(a) {
+			want = append(want, a.String()+"="+v.String())
+		}
 	}
 	m.set("nonces", d["nonces"], pair("contract_address", "nonce"), want)
 	want = nil
 	for a, v := range sd.DeployedContracts {
-		want = append(want, a.String()+"="+v.String())
+		if keep(a) {
+			want = append(want, a.String()+"="+v.String())
+		}
 	}
 	m.set("deployed_contracts", d["deployed_contracts"], pair("address", "class_hash"), want)
 	want = nil
 	for a, v := range sd.ReplacedClasses {
-		want = append(want, a.String()+"="+v.String())
+		if keep(a) {
+			want = append(want, a.String()+"="+v.String())
+		}
 	}
 	m.set("replaced_classes", d["replaced_classes"], pair("contract_address", "class_hash"), want)
 	want = nil
